@@ -21,14 +21,15 @@ import tempfile
 from . import common, rel, sess, tlc
 
 TIERS = {
-    "quick": dict(sample=110, sim_num=40, sim_depth=4, chunks=10),
-    "thorough": dict(sample=1500, sim_num=700, sim_depth=5, chunks=16),
+    "quick": dict(sample=110, sim_num=40, sim_depth=4, chunks=10, big=10),
+    "thorough": dict(sample=1500, sim_num=700, sim_depth=5, chunks=16, big=60),
 }
 FORMS = ["optimized", "lowered", "logical"]
 
 
 def build(case):
-    tabs = rel.make_tables(case["dseed"])
+    # "big": enough rows per partition and distinct key values for the planner's quantile SAMPLING to matter
+    tabs = rel.make_tables(case["dseed"], nrows=(240, 40), hi=90) if case.get("big") else rel.make_tables(case["dseed"])
     env = rel.dask_sources(tabs, {"T1": ("from_pandas", case["np1"]), "T2": ("from_pandas", case["np2"])})
     coll = rel.build(case["q"], env, "dask")
     if case.get("persisted"):
@@ -140,13 +141,15 @@ def run(tier="quick", seed=0, replay_path=None):
     if replay_path:
         with open(replay_path) as f:
             c = json.load(f)["case"]
-        cases = [{k: c[k] for k in ("q", "sc", "dseed", "np1", "np2", "persisted") if k in c}]
+        cases = [{k: c[k] for k in ("q", "sc", "dseed", "np1", "np2", "persisted", "big") if k in c}]
     else:
         qs = rel.gen_queries("general", 2, seed=seed, sample=t["sample"], sim_num=t["sim_num"], sim_depth=t["sim_depth"], chk=chk,
                              keep=lambda c: c["q"]["op"] in ("setindex", "sort") or (c["depth"] == 2 and c["q"]["c"][0]["op"] in ("setindex", "sort")))
         qs = [c for c in qs if c["depth"] >= 1]
         cases = [{"q": c["q"], "sc": c["sc"], "dseed": rnd.randrange(5), "np1": rnd.choice([2, 3]), "np2": rnd.choice([1, 2])} for c in qs]
         cases += [dict(c, persisted=True) for c in cases[:40] if c["sc"]["kind"] != "scalar"]
+        sorts = [c for c in cases if not c.get("persisted") and any(o in ("setindex", "sort") for o in rel.ops_of(c["q"])) and "merge" not in rel.ops_of(c["q"])]
+        cases += [dict(c, big=True, np1=rnd.choice([5, 6, 8])) for c in sorts[:t["big"]]]
     for i, c in enumerate(cases):
         c["cid"] = i
     common.assert_repo()
@@ -188,7 +191,7 @@ def run(tier="quick", seed=0, replay_path=None):
         c = bycid[ln["cid"]]
         chk.note_nontrivial(common.case_hash([c["q"], ln["form"], c.get("persisted", False)]))
         if ln["tid"] in rejects:
-            chk.fail(rejects[ln["tid"]], {"q": c["q"], "sc": c["sc"], "dseed": c["dseed"], "np1": c["np1"], "np2": c["np2"], "persisted": c.get("persisted", False),
+            chk.fail(rejects[ln["tid"]], {"q": c["q"], "sc": c["sc"], "dseed": c["dseed"], "np1": c["np1"], "np2": c["np2"], "persisted": c.get("persisted", False), "big": c.get("big", False),
                                           "form": ln["form"], "data_token_unstable": ln["data_token_unstable"], "ops": rel.ops_of(c["q"]), "errmsg": ln["here"].get("err", "") or ln["here"]["result"].get("err", "")},
                      {"here_name": ln["here"].get("name"), "alone_name": ln["alone"].get("name"), "here_div": ln["here"].get("div"), "alone_div": ln["alone"].get("div"),
                       "here_lens": ln["here"].get("lens"), "alone_lens": ln["alone"].get("lens")})
